@@ -157,24 +157,30 @@ def cmp3(a, b):
     return z3.If(a < b, z3.IntVal(-1), z3.If(a == b, z3.IntVal(0), z3.IntVal(1)))
 
 
-def static_writes(ex, callee, ins):
+def static_writes(ex, callee, ins, fn=None):
     W = set()
-    if callee.startswith('(*math/big.Int).') or callee == 'math/big.NewInt':
+    if callee.startswith('(*math/big.Int).') or callee.startswith('(*math/big.Rat).'):
         meth = callee.split('.')[-1]
-        if meth not in ('Cmp', 'Sign', 'String', 'Int64', 'IsInt64', 'BitLen', 'Text', 'Uint64', 'IsUint64', 'CmpAbs', 'Bit', 'ProbablyPrime'):
+        israt = '.Rat).' in callee
+        readonly = ('Cmp', 'Sign', 'String', 'Int64', 'IsInt64', 'BitLen', 'Text', 'Uint64', 'IsUint64', 'CmpAbs', 'Bit',
+                    'ProbablyPrime', 'FloatString', 'IsInt', 'RatString', 'Float64')
+        if israt and meth in ('Num', 'Denom'):
             W.add('H|bigint||Int')
-            W.add('?bigint-embedded')
-    elif callee.startswith('(*math/big.Rat).') or callee == 'math/big.NewRat':
-        meth = callee.split('.')[-1]
-        if meth in ('Num', 'Denom'):
-            W.add('H|bigint||Int')
-        elif meth not in ('Cmp', 'Sign', 'String', 'FloatString', 'IsInt', 'RatString', 'Float64'):
-            W.add('H|bigrat||Real')
-            W.add('?bigrat-embedded')
+        elif meth not in readonly:
+            recv = ins['args'][1]
+            if fn is not None:
+                W |= ex.addr_heaps(fn, recv)
+            else:
+                W |= ex.pointee_heaps(ex.m.elem(recv['t']), True)
+    elif callee in ('math/big.NewInt',):
+        W.add('H|bigint||Int')
+    elif callee in ('math/big.NewRat',):
+        W.add('H|bigrat||Real')
     elif callee.startswith('slices.Reverse') or callee.startswith('sort.Slice') or callee.startswith('slices.Sort'):
         a = ins['args'][1]
-        E = ex.m.elem(a['t'])
-        W |= {ex.aname(E, p, s) for (p, s, tk) in ex.m.layout(E)}
+        if ex.m.kind(a['t']) == 'slice':
+            E = ex.m.elem(a['t'])
+            W |= {ex.aname(E, p, s) for (p, s, tk) in ex.m.layout(E)}
     elif callee.startswith('strings.Split') or callee.startswith('strings.Fields') or callee.startswith('(*regexp.Regexp).FindStringSubmatch'):
         W.add(ex.aname('string', '', 'Str'))
     elif callee.startswith('golang.org/x/exp/maps.Keys') or callee.startswith('maps.Keys'):
@@ -183,8 +189,7 @@ def static_writes(ex, callee, ins):
             E = ex.m.elem(t)
             W |= {ex.aname(E, p, s) for (p, s, tk) in ex.m.layout(E)}
     elif callee.startswith('encoding/json.Unmarshal'):
-        a = ins['args'][2]
-        W |= unmarshal_heaps(ex, a)
+        W |= {'?json'}
     return W
 
 
